@@ -111,6 +111,7 @@ func c10Check(cs []tcue, f int64, spare int, styled bool) string {
 		content[t] = snapItem(it)
 	}
 	in := cuesOf(sub.Items)
+	someMetadata(sub, len(cs)+int(f%7))
 	if spare == 8 && len(cs)%2 == 1 {
 		// the list has been ordered and fragmented before and was re-timed in place since
 		if p := guard(func() { prewarm(sub) }); p != "" {
